@@ -50,7 +50,8 @@ Definition mkdirer (exts : list str) (dir : str) (f : fsmap) (gs : list gtree) :
 (* treeSimple.mkdir / mkdirProgrammably after the repairs of D6 and D7: names are always
    validated; with dry-run the report is printed and nothing is created.
    Result: new file system, what is printed (dry-run report), returned value. *)
-Definition mkdir_trees (c : cfg) (dir : str) (f : fsmap) (ts : list tree) : fsmap * list chunk * res unit :=
+Definition mkdir_trees (c0 : cfg) (dir : str) (f : fsmap) (ts : list tree) : fsmap * list chunk * res unit :=
+  let c := no_enc c0 in
   match grow_all c true ts with
   | Err e => (f, [], Err e)
   | Panic => (f, [], Panic)
